@@ -1167,7 +1167,10 @@ Plan gen_c15(uint64_t seed, bool th) {
     { pol::Rule r = prule(true, pol::Rule::OWN); r.own = "*"; b.rules.push_back(r); }
     { pol::Rule r = prule(true, pol::Rule::SEND); r.star_peer = true; b.rules.push_back(r); }
     { pol::Rule r = prule(true, pol::Rule::RECEIVE); r.star_peer = true; b.rules.push_back(r); }
-    int k = (int)g.r.below(4);
+    int k = (int)g.r.below(6);
+    if (k == 4) { pol::Rule r = prule(false, pol::Rule::SEND); r.min_fds = 1; r.max_fds = (long)g.r.range(1, 2); b.rules.push_back(r); }        // a window of descriptor counts: both bounds count
+    else if (k == 5) { pol::Rule r = prule(false, pol::Rule::RECEIVE); r.min_fds = (long)g.r.range(1, 2); r.max_fds = 2; b.rules.push_back(r); }
+    else
     if (k == 0) { pol::Rule r = prule(false, pol::Rule::SEND); r.interface = pol::Opt("com.example.Denied"); b.rules.push_back(r); }
     else if (k == 1) { pol::Rule r = prule(false, pol::Rule::SEND); r.min_fds = 2; b.rules.push_back(r); }
     else if (k == 2) { pol::Rule r = prule(false, pol::Rule::RECEIVE); r.interface = pol::Opt("com.example.Denied"); b.rules.push_back(r); }
@@ -1280,6 +1283,8 @@ Plan gen_c19(uint64_t seed, bool th) {
   int nops = (int)g.r.range(6, th ? 60 : 26);
   int started = 0;
   auto a_act = [&]() { return act[g.r.below(act.size())]; };
+  bool envplan = g.r.pct(30);
+  if (envplan && g.r.pct(60)) g.add(g.mk("query", 0, {-1}, {"UpdateActivationEnvironment", "DBUS_STARTER_ADDRESS", "unix:path=/nonexistent/first"}));
   for (int op = 0; op < nops; op++) {
     int x = (int)g.r.below(100);
     int from = g.a_client();
@@ -1311,6 +1316,12 @@ Plan gen_c19(uint64_t seed, bool th) {
     } else if (x < 93) {
       g.add(g.mk("close", from));
     } else if (x < 96) {
+      // (in some plans clients also store variables in the activation environment - among them the ones by which
+      // the bus tells a started program which bus started it)
+      if (envplan && g.r.pct(60)) {
+        static const char *keys[] = {"DBUS_STARTER_ADDRESS", "DBUS_STARTER_ADDRESS", "SIM_VAR", "DBUS_STARTER_BUS_TYPE", "SIM_OTHER"};
+        g.add(g.mk("query", from, {-1}, {"UpdateActivationEnvironment", keys[g.r.below(5)], "unix:path=/nonexistent/" + std::to_string(g.r.below(1000))}));
+      } else
       g.add(g.mk("query", from, {-1}, {g.r.pct(50) ? "ListActivatableNames" : "NameHasOwner", a_act()}));
     } else g.add(g.mk("deliver", from, {-1}));
     g.pump();
